@@ -231,6 +231,12 @@ pub fn run_check(ctx: &mut Ctx) {
 }
 
 pub fn replay(ctx: &mut Ctx, case: &serde_json::Value) {
-    let c: Case = serde_json::from_value(json!({"entropy": case["entropy"], "neg_nonalnum": case["neg_nonalnum"]})).unwrap();
+    let c: Case = match serde_json::from_value(json!({"entropy": case["entropy"], "neg_nonalnum": case["neg_nonalnum"]})) {
+        Ok(c) => c,
+        Err(e) => {
+            ctx.health(false, format!("replay case does not deserialize: {}", e));
+            return;
+        }
+    };
     ctx.replay_one(&c, prop, case.clone());
 }
